@@ -84,6 +84,13 @@ Definition c06_case m es ea cs ca ords orda ordsq ordaq runs fuel (mv : option f
   (c06_reach m runs fuel, c06_lists m es ea cs ca ords orda fuel, c06_view m sl al,
    c06_rebuilt m sl al fuel, c06_quick (quick_wrap m) cs ca ordsq ordaq fuel,
    c06_quick mv cs ca ordsv ordav fuel).
+Definition c06_funcs_r m sl :=
+  (dz (finit m), map (fun s => (factions m s, fabsorbing m s,
+     map (fun a => map (fun e => (fst e, qz (snd e), qz (freward m s a (fst e)))) (fnext m s a)) (factions m s))) sl).
+Definition c06_raw (M : mats) cs ca ordsq ordaq fuel :=
+  let m := from_matrices M in
+  (reachable m pick_head None fuel, c06_funcs_r m (m_sl M), c06_view m (m_sl M) (m_al M),
+   c06_quick (quick_wrap m) cs ca ordsq ordaq fuel).
 Local Open Scope Z_scope.
 """
 
@@ -362,6 +369,27 @@ def gen_case(rng, tier):
     case.update({"reach_order": order, "cutoff_float": rng.random() < .3, "actions_as_list": rng.random() < .3,
                  "explicit_as_list": rng.random() < .4, "fm_lists": rng.choice(["domaintuple", "list", "tuple"]),
                  "dist_repr": "native" if rng.random() < .4 else "dict"})
+    # hand-made dense arrays for from_matrices that are NOT canonical: the base MDP's arrays plus transition rows under
+    # unavailable actions, rewards on zero-probability transitions, truthy action-matrix entries other than 1
+    if rng.random() < .4:
+        sl, al = list(range(n)), list(range(nA))
+        rng.shuffle(sl)
+        rng.shuffle(al)
+        P, R, av, absf, ini = gen_mdp.arrays(m, sl, al)
+        for i in range(n):
+            for j in range(nA):
+                if not av[i][j] and rng.random() < .7:
+                    succ = rng.sample(range(n), rng.randint(1, min(3, n)))
+                    for k2, pr in zip(succ, gen_mdp._split_prob(rng, len(succ))):
+                        P[i][j][k2] = pr
+                for k2 in range(n):
+                    if (not av[i][j] or P[i][j][k2] == 0) and rng.random() < .6:
+                        R[i][j][k2] = F(rng.randint(-16, 16), 4) or F(1)
+        case["raw"] = {"sl": sl, "al": al, "s0": [str(x) for x in ini],
+                       "tf": [[[str(x) for x in r] for r in mm] for mm in P],
+                       "rf": [[[str(x) for x in r] for r in mm] for mm in R],
+                       "am": [[("2" if rng.random() < .1 else "1") if x else "0" for x in r] for r in av],
+                       "abs": [bool(x) for x in absf]}
     r = rng.random()
     if r < (.5 if abs_out else .3):
         p = list(range(n))
@@ -408,6 +436,40 @@ def absorbing_initial_witness(case):
     words = spec_reach(case, False)
     return [[s, ns] for s, p0 in m["init"] if F(p0) > 0 and m["absorbing"][s]
             for a in m["actions"][s] for ns, p in m["trans"]["%d,%d" % (s, a)] if F(p) != 0 and ns not in words]
+
+
+def raw_functional(case):
+    """the functional MDP that from_matrices builds from the raw arrays (its closures read them like this),
+    as a gen_mdp-style case over the same ids: the oracle for every view of that MDP"""
+    raw, m = case["raw"], case["mdp"]
+    sl, al = raw["sl"], raw["al"]
+    n, nA = len(sl), len(al)
+    actions = [None] * n
+    trans, reward = {}, {}
+    for i, s in enumerate(sl):
+        actions[s] = [al[j] for j in range(nA) if F(raw["am"][i][j]) != 0]
+        for j, a in enumerate(al):
+            trans["%d,%d" % (s, a)] = [[sl[k], raw["tf"][i][j][k]] for k in range(n) if F(raw["tf"][i][j][k]) > 0]
+            for k in range(n):
+                reward["%d,%d,%d" % (s, a, sl[k])] = raw["rf"][i][j][k]
+    absb = [None] * n
+    for i, s in enumerate(sl):
+        absb[s] = raw["abs"][i]
+    fm = {"n": n, "nA": nA, "actions": actions, "trans": trans, "reward": reward, "absorbing": absb,
+          "init": [[sl[i], raw["s0"][i]] for i in range(n) if F(raw["s0"][i]) > 0], "gamma": m["gamma"]}
+    d = dict(case)
+    d.update({"mdp": fm, "explicit_states": sl, "explicit_actions": al})
+    return d
+
+
+def raw_term(case, res):
+    raw = case["raw"]
+    n = len(raw["sl"])
+    M = "(mkM %s %s %s %s %s %s %s %s)" % (natlist(raw["sl"]), natlist(raw["al"]), vlib.qlist(raw["s0"]), vlib.qten(raw["tf"]),
+                                          vlib.qmat(raw["am"]), vlib.qten(raw["rf"]), blist(raw["abs"]), q(case["mdp"]["gamma"]))
+    qk = res.get("raw_quick", {})
+    return "c06_raw %s %s %s %s %s %s" % (M, bmat(cmp_table(case["slabels"])), bmat(cmp_table(case["alabels"])),
+                                          natlist(lst(qk, "state_list")), natlist(lst(qk, "action_list")), nat(3 * n + 6))
 
 
 def oracle_view(case, sl, al):
@@ -570,13 +632,14 @@ def close_iv(a, b):
 
 
 class Checker:
-    def __init__(self, ctx, case, res):
+    def __init__(self, ctx, case, res, replay_case=None):
         self.ctx, self.case, self.res = ctx, case, res
+        self.replay_case = replay_case or case          # what a replay file must hold
         self.nviol = 0
 
     def report(self, sig, info, found):
         self.nviol += 1
-        d = {"case": self.case}
+        d = {"case": self.replay_case}
         d.update(info)
         self.ctx.violation(sig, d, found=found)
 
@@ -857,6 +920,94 @@ def check_case(ctx, case, res, val, stats):
     return ck.nviol
 
 
+def plan_same(ck, tag, po, pr, stats, clause):
+    if po is None or pr is None:
+        return
+    stats["plan_compared"] += 1
+    if ("error" in po) != ("error" in pr) or ("error" in po and po["error"].split(":")[0] != pr["error"].split(":")[0]):
+        ck.report("C06:plan:%s:error-differs" % tag, {"first": po, "second": pr}, True)
+    elif "error" not in po and {k: v for k, v in po.items() if k != "initial_value"} == {k: v for k, v in pr.items() if k != "initial_value"} \
+            and po != pr and close_iv(po["initial_value"], pr["initial_value"]):
+        stats["plan_initial_value_rounding"] += 1
+    elif po != pr:
+        ck.report("C06:plan:%s:result-differs" % tag, {"first": po, "second": pr, "clause": clause}, True)
+
+
+def check_raw(ctx, case, res, val, stats):
+    """from_matrices on non-canonical dense arrays: every view of the MDP it returns against that MDP's own
+    functions (model: from_matrices + to_matrices on the raw arrays; oracle: raw_functional)"""
+    fcase = raw_functional(case)
+    ck = Checker(ctx, fcase, res, replay_case=case)
+    raw = case["raw"]
+    sl, al = raw["sl"], raw["al"]
+    rr = res.get("raw")
+    if rr is None or ("error" in rr and "state_list" not in rr):
+        ck.report("C06:raw:from_matrices-raises:%s" % (rr or {"error": "missing"})["error"].split(":")[0], {"impl": rr}, True)
+        return ck.nviol
+    reach_m, funcs_m, view_m, quick_m = val
+    stats["raw_views"] += 1
+    if rr.get("state_list") != sl or rr.get("action_list") != al:
+        ck.report("C06:raw:lists-not-kept", {"impl": [rr.get("state_list"), rr.get("action_list")], "given": [sl, al]}, True)
+        return ck.nviol
+    # the functions, before and after the cached views were computed
+    fm_init, fm_rows = funcs_m
+    pr = lambda x: [zq(x).numerator, zq(x).denominator]
+    exp = {"init": sorted([s, pr(p)] for s, p in fm_init)}
+    for s, (acts, ab, nxt) in zip(sl, fm_rows):
+        exp[str(s)] = {"actions": acts, "absorbing": ab,
+                       "next": {str(a): sorted([ns, pr(p)] for ns, p, r in row) for a, row in zip(acts, nxt)},
+                       "reward": {"%d,%d" % (a, ns): pr(r) for a, row in zip(acts, nxt) for ns, p, r in row}}
+    for key in ("funcs", "funcs_after"):
+        if rr.get(key) != exp:
+            fo = raw_functional(case)["mdp"]
+            ok_o = all(rr.get(key, {}).get(str(s), {}).get("actions") == fo["actions"][s] for s in sl) if isinstance(rr.get(key), dict) else False
+            ck.report("C06:raw:%s:differ-from-model" % key, {"impl": rr.get(key), "model": exp}, not ok_o)
+    mv = model_view(view_m)
+    ok = ck.compare_view("raw", rr, mv, sl, al)
+    if ok:
+        for t, a in (("tf_table", "tf"), ("rf_table", "rf"), ("sarf_table", "sarf")):
+            if rr.get(t) != rr.get(a):
+                ck.report("C06:raw:%s:differs-from-array" % t, {"table": rr.get(t), "array": rr.get(a)}, True)
+    full = spec_reach(fcase, True)
+    if rr.get("reach") != sorted(full) or set(reach_m) != full:
+        ck.report("C06:raw:reachable-differs", {"impl": rr.get("reach"), "model": sorted(set(reach_m)), "expected": sorted(full)},
+                  rr.get("reach") != sorted(full))
+    if rr.get("reach_vec") != [s in full for s in sl]:
+        ck.report("C06:raw:reachable_state_vec", {"impl": rr.get("reach_vec")}, True)
+    # wrapping its functions in the quick constructor
+    qr = res.get("raw_quick")
+    same_lists = False
+    if qr is not None:
+        if "error" in qr and "state_list" not in qr:
+            ck.report("C06:raw_quick:raises:%s" % qr["error"].split(":")[0], {"error": qr["error"]}, True)
+        elif quick_m is None:
+            ck.report("C06:model:raw_quick:constructor-assertion", {}, False)
+        else:
+            _, ql_m, qview_m = quick_m[1]
+            la2 = ck.compare_lists("raw_quick", qr, ql_m, None, None)
+            if la2 is not None:
+                okq = ck.compare_view("raw_quick", qr, model_view(qview_m), la2[0], la2[1])
+                same_lists = okq and la2[0] == sl and la2[1] == al
+                if ok and same_lists:
+                    for k in ARR + ["gamma"]:
+                        if qr.get(k) != rr.get(k):
+                            ck.report("C06:raw_quick:%s:differs-from-wrapped-mdp" % k, {"wrapped": qr.get(k), "from_matrices": rr.get(k),
+                                      "clause": "wrapping the functions of a from_matrices MDP gives different arrays"}, True)
+    # a second round trip serves the same views
+    rb = res.get("raw_rebuilt")
+    if rb is not None and ok:
+        for k in ["state_list", "action_list", "gamma"] + ARR:
+            if rb.get(k) != rr.get(k):
+                ck.report("C06:raw_rebuilt:%s:differs" % k, {"rebuilt": rb.get(k), "first": rr.get(k),
+                          "clause": "rebuilding from the arrays of a from_matrices MDP does not give identical arrays"}, True)
+    pl = res.get("raw_plan")
+    if pl and ok:
+        plan_same(ck, "raw-vs-rebuilt", pl.get("raw"), pl.get("rebuilt"), stats, "ValueIteration differs between a from_matrices MDP and its rebuild")
+        if same_lists:
+            plan_same(ck, "raw-vs-quick", pl.get("raw"), pl.get("quick"), stats, "ValueIteration differs between a from_matrices MDP and the quick wrapper of its functions")
+    return ck.nviol
+
+
 def run(ctx):
     tier = ctx.tier
     ncases = 300 if tier == "quick" else 6000
@@ -879,9 +1030,12 @@ def run(ctx):
             continue
         terms.append(case_term(case, res))
         idx.append(i)
-    vals = ctx.coq(PRE, terms, shard=10 if tier == "quick" else 40)
+    raw_idx = [i for i in idx if cases[i].get("raw")]
+    vals = ctx.coq(PRE, terms + [raw_term(cases[i], impl[i]) for i in raw_idx], shard=10 if tier == "quick" else 40)
+    raw_vals = dict(zip(raw_idx, vals[len(terms):]))
+    vals = vals[:len(terms)]
     stats = {k: 0 for k in ("reach_runs", "reach_replay_drift", "cutoff_binding", "absorbing_initial_expanded", "views", "round_trips",
-                            "quick_views", "plan_compared", "plan_skipped_different_lists", "plan_initial_value_rounding")}
+                            "quick_views", "raw_views", "plan_compared", "plan_skipped_different_lists", "plan_initial_value_rounding")}
     feats = {}
     distinct = set()
     nok = 0
@@ -892,6 +1046,13 @@ def run(ctx):
             continue
         try:
             nv = check_case(ctx, case, res, v, stats)
+            if case.get("raw"):
+                rv = raw_vals.get(i)
+                if isinstance(rv, vlib.CoqError) or rv is None:
+                    ctx.violation("C06:coq-evaluation-failed", {"case": case, "error": str(rv)[:800]}, found=False)
+                    nv += 1
+                else:
+                    nv += check_raw(ctx, case, res, rv, stats)
         except Exception as e:                     # malformed output: broken correspondence, not a finding
             import traceback
             ctx.violation("C06:harness-comparison-crashed", {"case": case, "error": traceback.format_exc()[-1500:]}, found=False)
@@ -912,6 +1073,7 @@ def run(ctx):
              "cutoff_first": case["reach_order"][0] is not None, "cutoff_float": case["cutoff_float"],
              "actions_as_list": case["actions_as_list"], "native_distributions": case["dist_repr"] == "native",
              "fm_" + case["fm_lists"]: True,
+             "raw_from_matrices": bool(case.get("raw")),
              "gamma_zero": F(case["mdp"]["gamma"]) == 0, "gamma_tiny": 0 < F(case["mdp"]["gamma"]) < F(1, 1000),
              "gamma_passed_as_int": bool(case.get("gamma_int")),
              "repeated_action": any(len(set(a)) != len(a) for a in case["mdp"]["actions"]),
@@ -924,7 +1086,7 @@ def run(ctx):
         "distinct_nontrivial": len(distinct),
         "rule": "functional MDPs from harness/gen_mdp.py (1..%d states, 1..3 actions, k/8 probabilities, zero-probability entries in "
                 "next-state and initial distributions, rewards on zero-probability successors, explicit/implicit absorbing states, near-absorbing states (self-loop probability 1 - 2^-k, k in {10,20,30}, or reward +-2^-30 on a certain self-loop), dead ends, actions listed twice, "
-                "gamma in {1/2..19/20, 1, 0, 2^-20, 1-2^-20}, 0 and 1 passed as int or float) rewards up to 1e6 or 2^-30 apart, initial probabilities 2^-30 / 1-2^-30, MDPs without any action or without absorbing states; relabelled with ints / floats / bools / falsy labels (0, 0.0, False, '', (), frozendict()) / strings / int tuples / (int,str) tuples / frozendicts / nested mixed tuples "
+                "gamma in {1/2..19/20, 1, 0, 2^-20, 1-2^-20}, 0 and 1 passed as int or float) rewards up to 1e6 or 2^-30 apart, initial probabilities 2^-30 / 1-2^-30, MDPs without any action or without absorbing states; 40%% also go through from_matrices on non-canonical dense arrays (transition rows under unavailable actions, rewards on zero-probability transitions, action-matrix entries 2); relabelled with ints / floats / bools / falsy labels (0, 0.0, False, '', (), frozendict()) / strings / int tuples / (int,str) tuples / frozendicts / nested mixed tuples "
                 "(sortable and unsortable sets), explicit (shuffled, with unreachable states) or inferred state and action lists, 1-3 "
                 "max_states cut-offs in 0..n+1, constant/deterministic QuickMDP argument variants; %s; distinct = structural hash of (MDP, labels, "
                 "explicit lists); every case is non-trivial (>= 1 state with a transition row or a dead end)"
